@@ -162,7 +162,7 @@ def run(ctx):
     b = ctx.anchor('asefile::cel::CelsData::validate')
     if b is not None:
         aggs = q.stmt_aggs(b, CELID)
-        ctx.floor('CelId aggregates in CelsData::validate', len(aggs), 2)
+        ctx.floor('CelId aggregates in CelsData::validate', len(aggs), 1)
         nested = 0
         for bb, st, t in aggs:
             fr = strip_casts(agg_field(t, 'frame'))
